@@ -360,11 +360,28 @@ Proof.
   eapply eq_trans; [apply (ExpandTree.bind_ok _ _ _ Eg)|]. reflexivity.
 Qed.
 
+(* a quiet forest has no lorem header: the lorem pass (whatever the oracle stream) leaves it alone *)
+Lemma quiet_lorem_free cfg : forall n, Forall (quiet_node cfg) (nodes n) -> LoremFill.lorem_free n = true.
+Proof.
+  apply (anode_ind' (fun n => Forall (quiet_node cfg) (nodes n) -> LoremFill.lorem_free n = true)).
+  intros nm v rp at_ ch sc HF H. cbn [nodes] in H. inversion H as [|x y Hn Hk]; subst.
+  rewrite LoremFill.lorem_free_eq.
+  assert (Hh : lorem_header nm = LNo).
+  { unfold quiet_node, quiet_name in Hn. cbn [an_name] in Hn. destruct nm as [[|c0 name]|]; try contradiction.
+    destruct Hn as [Hl _]. exact Hl. }
+  rewrite Hh. cbn [andb]. clear H Hn Hh. induction HF as [|c k Hc _ IHk]; [reflexivity|].
+  cbn [flat_map] in Hk. apply Forall_app in Hk. destruct Hk as [Hk1 Hk2].
+  cbn [forallb]. rewrite (Hc Hk1), (IHk Hk2). reflexivity.
+Qed.
+
 Lemma transform_list_quiet cfg : mc_bem cfg = false -> forall l,
   Forall (quiet_node cfg) (flat_map nodes l) -> transform_list cfg l = Ok (map (tmap cfg) l).
 Proof.
-  intros Hbem. induction l as [|c r IH]; intros H; [reflexivity|]. cbn [flat_map] in H. apply Forall_app in H. destruct H as [H1 H2].
-  cbn [transform_list map]. destruct (transform_tree_quiet cfg Hbem c None true [] H1) as [path E].
+  intros Hbem l H. rewrite LoremFill.transform_list_free.
+  2:{ clear - H. induction l as [|c r IH]; [reflexivity|]. cbn [flat_map] in H. apply Forall_app in H. destruct H as [H1 H2].
+      cbn [forallb]. rewrite (quiet_lorem_free cfg c H1), (IH H2). reflexivity. }
+  revert H. induction l as [|c r IH]; intros H; [reflexivity|]. cbn [flat_map] in H. apply Forall_app in H. destruct H as [H1 H2].
+  cbn [transform_forest map]. destruct (transform_tree_quiet cfg Hbem c None true [] H1) as [path E].
   rewrite E. cbn [bind]. rewrite (IH H2). reflexivity.
 Qed.
 
